@@ -39,6 +39,7 @@ def instances(tier):
         out.append(p)
     for g in (4, 5):
         out.append({"kind": "timer_sequence", "gen": g, "call": "timer_sequence", "vary": "config"})
+    out += apicmd.sequence_instances(tier)
     return out
 
 
@@ -126,6 +127,11 @@ def _timer_sequence(ctx, p):
 def run(ctx, p):
     if p.get("kind") == "timer_sequence":
         return _timer_sequence(ctx, p)
+    if p.get("kind") == "call_sequence":
+        apicmd.run_sequence(ctx, p, "accepted_writes_one_frame" if p["what"] != "timers_two_acs" else "other_timer_untouched")
+        for lab in expect_labels("quick"):
+            ctx.reach(lab)
+        return
     A = apicmd.api()
     out = apicmd.scenario(ctx, p)
     env, gen, call = out["env"], out["gen"], p["call"]
